@@ -260,13 +260,22 @@ def run_bounded(run, cfg):
             run.violations.append({'fid': fid, 'clause': native_clause(out['fail']['detail'], ''), 'kind': 'bounded',
                                    'replay': path, 'note': out['fail']['detail'], 'input': True})
     for item in cfg.get('custom', []):
-        # custom native/bounded checks: module function returning a dict like the bounded runner
+        # custom native bounded checks (sidecar function run under /venv/bin/python)
         sidecar, fn = item[0], item[1]
-        mod = importlib.import_module(sidecar)
-        try:
-            getattr(mod, fn)(run)
-        except Exception:
-            run.errors.append(f'custom check {sidecar}.{fn} crashed: {traceback.format_exc()[-1500:]}')
+        code, out, raw = native(['custom', sidecar, fn, run.tier], timeout=7200)
+        if not out or 'cases' not in out:
+            run.errors.append(f'custom bounded check {sidecar}.{fn} failed: {raw[-1500:]}')
+            continue
+        run.bounded.append({'function': f'{sidecar}.{fn}', 'cases': out['cases'],
+                            'nontrivial': out.get('nontrivial', out['cases']),
+                            'bound': item[2] if len(item) > 2 else out.get('bound', ''),
+                            'wall_s': out['wall_s'], 'samples': out.get('samples', [])[:2]})
+        for fl in ([out['fail']] if out.get('fail') else []):
+            path = run.replay_path('bounded')
+            json.dump({'property': run.pid, 'sidecar': sidecar, 'kind': 'custom', 'replay_fn': fl.get('replay_fn', fn + '_replay'),
+                       'fid': fl.get('fid', f'{sidecar}.{fn}'), 'case': fl.get('case'), 'native': fl}, open(path, 'w'), indent=1)
+            run.violations.append({'fid': fl.get('fid', f'{sidecar}.{fn}'), 'clause': fl.get('clause', fl.get('detail', '')),
+                                   'kind': 'bounded', 'replay': path, 'note': fl.get('detail', ''), 'input': True})
 
 
 def apply_known(run):
